@@ -365,6 +365,15 @@ func TestVF_C06_Cluster(t *testing.T) {
 			}
 			p.Faults = append(p.Faults, Fault{Kind: FTransfer, A: vfhelp.Pick(t, "tr", 2), B: vfhelp.Pick(t, "trb", 2), AfterMs: 10 + vfhelp.PickN(t, "trafter", 40)})
 			p.StaleReaders = 1 + vfhelp.Pick(t, "stalereaders", 1)
+			if vfhelp.Pick(t, "restartinread", 1) == 1 {
+				// the replica a SyncRead was issued on is replaced by a new incarnation (replaying
+				// its log with slow Updates) between the read's ReadIndex and its Lookup
+				p.RestartInReadPct = 10 + vfhelp.PickN(t, "restartinreadpct", 20)
+				p.AsyncPct = 40
+				if p.WidenUs < 300 {
+					p.WidenUs = 300 + vfhelp.PickN(t, "widenus3", 1200)
+				}
+			}
 			if vfhelp.Pick(t, "slowread", 1) == 1 {
 				// readers that use their completed ReadIndex late, while replicas are stopped and started again
 				p.SlowReadUs = 500 + vfhelp.PickN(t, "slowreadus", 4000)
@@ -481,6 +490,9 @@ func TestVF_C11_PlainSM(t *testing.T) {
 			p.Faults = append([]Fault{
 				{Kind: FIsolate, A: a, AfterMs: 5 + vfhelp.PickN(t, "lagafter", 20)},
 				{Kind: FHeal, AfterMs: 60 + vfhelp.PickN(t, "healafter", 80)}}, p.Faults...)
+			// a replica is stopped while one of its local reads is still inside Lookup
+			p.SlowLookupMs = 3 + vfhelp.PickN(t, "slowlookupms", 6)
+			p.Faults = append(p.Faults, Fault{Kind: FStopReplica, A: vfhelp.Pick(t, "sr", 2), B: vfhelp.Pick(t, "srb", 3), AfterMs: 10 + vfhelp.PickN(t, "srafter", 40)})
 		},
 		rule: "non-trivial = a running replica with local readers active restored a snapshot (RecoverFromSnapshot called while StaleRead calls succeed), or Lookup/SaveSnapshot were pending during Update",
 		nontriv: func(res *Result) bool {
